@@ -117,6 +117,39 @@ def _observe(drv, rows, mode, via, rnd):
     return cases
 
 
+def _observe_lanes(drv, rows):
+    """AArch64: the v registers as they stand inside instructions - one lane of them (`v1.d[0]`), another lane
+    (`v1.d[1]`), all lanes (`v1.2d`).  All of them are views of the architectural register vN: the dependents are
+    those of the name vN, whichever lane or arrangement the two operands name."""
+    names = sorted(rows)
+    vnames = [n for n in names if n[0] == "v" and n[1:].isdigit()]
+
+    def lane(n, idx, shape="d"):
+        line = drv.p.parse_line("ins {}.{}[{}], x3".format(n, shape, idx))
+        return line.operands[0]
+
+    def arr(n):
+        line = drv.p.parse_line("fadd {0}.2d, {0}.2d, {0}.2d".format(n))
+        return line.operands[0]
+    plain = {n: drv.parsed(n) for n in names}
+    cases = []
+    for tag, mk_a, mk_b in (("lane0-lane1", lambda n: lane(n, 0), lambda n: lane(n, 1)),
+                            ("lane1-arr", lambda n: lane(n, 1), arr),
+                            ("arr-lane0s", arr, lambda n: lane(n, 0, "s")),
+                            ("lane3s-lane0d", lambda n: lane(n, 3, "s"), lambda n: lane(n, 0))):
+        for a in vnames:
+            deps, err = [], None
+            for b in names:
+                try:
+                    if drv.dep(mk_a(a), mk_b(b) if b in vnames else plain[b]):
+                        deps.append(b)
+                except Exception as e:  # a crash is not an allowed outcome
+                    err = "%s: %s" % (type(e).__name__, e)
+            cases.append({"id": "%s|lanes:%s|lower|%s" % (drv.isa, tag, a), "isa": drv.isa, "name": a, "deps": deps,
+                          "asked": len(names), "mode": "lower", "via": "lanes:" + tag, "error": err})
+    return cases
+
+
 def _signature(c, clause, rows):
     exp = set(rows[c["name"]]["deps"])
     obs = set(c["deps"])
@@ -141,6 +174,10 @@ def main(tier, seed):
                 cs = _observe(drv, rows, mode, via, rnd)
                 cases += cs
                 total_pairs += len(cs) * len(rows)
+        if drv.isa == "aarch64":
+            cs = _observe_lanes(drv, rows)
+            cases += cs
+            total_pairs += len(cs) * len(rows)
         for c in cases:
             if c["error"]:
                 run.fail("C12:%s:exception:%s" % (c["isa"], c["name"]), c["error"], c)
@@ -173,6 +210,12 @@ def replay(path):
     c = rec["case"]
     drv = X86Driver() if c["isa"] == "x86" else A64Driver()
     print("replaying", rec["signature"])
+    if str(c["via"]).startswith("lanes:"):
+        # lane / arrangement views: observed again on the current tree
+        now = [x for x in _observe_lanes(drv, {n: None for n in c.get("names", [])} or _emit_table(Run("C12", "quick", 0), "aarch64"))
+               if x["id"] == c["id"]]
+        print("register", c["name"], "recorded dependents", c["deps"], "now", now[0]["deps"] if now else "?")
+        return 0
     build = drv.parsed if c["via"] == "parser" else drv.direct
     rnd = random.Random(rec.get("seed", 0))
     a = build(_case(c["name"], c["mode"], rnd))
